@@ -744,6 +744,25 @@ def typing_programs(ill=False):
                  "main": Fn([], Block([Let("h", Spawn("work", arg, I(1))), Print(MCall(V("h"), "join"))] if how == "spawn" else
                                       [Print(Call("work", arg, I(1)))]))}, vm_only=True,
                 **({"refused": True} if how == "spawn" and tag != "data_deep" else {}))
+    # what can be started as a thread: a function definition; what the handle offers: join, giving the function's result
+    TW = {"twice": Fn(["a"], Block([], Bin("*", V("a"), I(2))), "int"), "mk": Fn([], Block([], FnLit(["a"], Block([], V("a")), "int")), FT),
+          "quiet": Fn(["a"], Block([Print(V("a"))]), "null", ["int"])}
+    add("thread_join", dict(TW, main=Fn([], Block([Let("h", Spawn("twice", I(2))), Let("r", MCall(V("h"), "join")), Print(Bin("+", V("r"), I(1))),
+                                                  Let("q", Spawn("quiet", I(1))), Expr(MCall(V("q"), "join")),
+                                                  Let("hs", List(Spawn("twice", I(3)), Spawn("twice", I(4)))),
+                                                  For("x", V("hs"), Block([Print(CallV(Mem(V("x"), "join")))]))]))), vm_only=True)
+    for tag, stmts in (("fn_value", [Let("f", V("twice")), Expr(Spawn("f", I(1)))]),
+                       ("fn_literal", [Let("f", FnLit(["a"], Block([], V("a")), "int")), Expr(Spawn("f", I(1)))]),
+                       ("builtin", [Expr(Spawn("println", I(1)))]),
+                       ("parameter_named_like_function", None),
+                       ("returns_function", [Expr(Spawn("mk"))]),
+                       ("local_named_like_function", [Let("twice", V("twice")), Expr(Spawn("twice", I(1)))])):
+        fns = dict(TW)
+        if stmts is None:
+            fns["go"] = Fn(["twice"], Block([Expr(Spawn("twice", I(1)))]), "null", [FT])
+            stmts = [Expr(Call("go", V("twice")))]
+        fns["main"] = Fn([], Block(stmts))
+        add("thread_start_" + tag, fns, vm_only=True, refused=True)
     add("shadow_types", main(Let("x", I(1)), Print(Bin("+", V("x"), I(1))), Let("x", S("s")), Print(Bin("+", V("x"), S("t"))),
                              Expr(Block([Let("x", List(B(True))), Print(Idx(V("x"), I(0)))])), Print(MCall(V("x"), "len"))))
     if not ill:
